@@ -127,10 +127,21 @@ def random_histories(rng, n, length, tier):
                 ops.append(op("remove_all", rpath()))
             elif k < 0.80:
                 ops.append(op("set_cwd", rpath()))
-            elif k < 0.84:
+            elif k < 0.83:
                 ops.append(op(rng.choice(["write_lines", "append_lines"]), rpath(), rng.choice([[], ["a"], ["a", "", "b"], ["é"]])))
+            elif k < 0.86:
+                ops.append(op("chown", rpath(), rng.choice([5, 1000]), rng.choice([7, 1000])))
+            elif k < 0.89:
+                ops.append(op("chmod", rpath(), rng.choice([0o700, 0o644, 0o555, 0o750])))
+            elif k < 0.92:
+                ops.append(op("copy", rpath(), rpath()))
+            elif k < 0.94:
+                ops.append(rng.choice([op("mkdir_m", rpath(), rng.choice([0o700, 0o755])), op("mkfile_m", rpath(), rng.choice([0o600, 0o644]))]))
             else:
                 ops.append(op(rng.choice(QUERIES), rpath()))
+            # the same call again later in the history (a call that short-cuts on what it did before shows here)
+            if len(ops) > 1 and rng.random() < 0.12:
+                ops.append(rng.choice(ops[:-1]))
         hs.append("\t".join(["hist", "m", envspec(MEM_ENV)] + ops))
     return hs
 
